@@ -188,134 +188,193 @@ def erase(t):
 _COUNTER = [0]
 
 
+def _type_refs(ty, acc):
+    if isinstance(ty, dict):
+        if "data" in ty:
+            acc.add(ty["data"])
+        for key in ("of", "map", "opt"):
+            if key in ty:
+                _type_refs(ty[key], acc)
+        for t in ty.get("tup", []):
+            _type_refs(t, acc)
+    return acc
+
+
+def needed_decls(case, k):
+    """the declarations a parse of declaration k depends on: k, its base classes, the classes its types mention"""
+    env = case["env"]
+    need, todo = set(), [k]
+    while todo:
+        j = todo.pop()
+        if j in need or j >= len(env):
+            continue
+        need.add(j)
+        d = env[j]
+        if d.get("base") is not None:
+            todo.append(d["base"])
+        refs = set()
+        for f in d["fields"]:
+            _type_refs(f["ty"], refs)
+        if d.get("ret"):
+            _type_refs(d["ret"]["ty"], refs)
+        todo += list(refs)
+    return need
+
+
 class Program:
     """the declarations of a case, instantiated through the public API"""
 
-    def __init__(self, case, only_wrapper=None):
+    def __init__(self, case, only_wrapper=None, only_decls=None):
         import types
-        import typing
-        import utype
-        from utype import Schema, DataClass, Field, Options
 
         _COUNTER[0] += 1
         self.uid = _COUNTER[0]
         self.case = case
+        self.only_wrapper = only_wrapper
         self.modname = f"c19mod_{os.getpid()}_{self.uid}"
         self.mod = types.ModuleType(self.modname)
         sys.modules[self.modname] = self.mod
-        self.classes = []
-        self.defaults = []          # declared default objects, in (class, field) order
-        self.wrappers = []
-        self.hold = []
-        tags = {}
         env = case["env"]
-        names = [f"K{self.uid}_{k}" for k in range(len(env))]
-        self.names = names
-
-        def mk_type(ty, cur):
-            if ty == "any":
-                return typing.Any
-            if ty == "int":
-                return int
-            if "bare" in ty:
-                return {"list": list, "tuple": tuple, "set": set, "fset": frozenset, "dict": dict}[ty["bare"]]
-            if "seq" in ty:
-                t = mk_type(ty["of"], cur)
-                k = ty["seq"]
-                return {"list": lambda: typing.List[t], "tuple": lambda: typing.Tuple[t, ...],
-                        "set": lambda: typing.Set[t], "fset": lambda: typing.FrozenSet[t]}[k]()
-            if "map" in ty:
-                return typing.Dict[str, mk_type(ty["map"], cur)]
-            if "tup" in ty:
-                return typing.Tuple[tuple(mk_type(t, cur) for t in ty["tup"])]
-            if "opt" in ty:
-                return typing.Optional[mk_type(ty["opt"], cur)]
-            if "data" in ty:
-                j = ty["data"]
-                if cur is not None and j < cur:
-                    return self.classes[j]
-                return names[j]      # forward reference by name (self or later class): resolved lazily at first parse
-            raise ValueError(ty)
-
-        def mk_default(f, is_func):
-            d = f.get("default")
-            if d is None:
-                return None, False
-            obj = build(d["val"], tags)
-            how = d.get("how", "val")
-            F = utype.Param if is_func else Field
-            kw = {} if is_func else {"no_output": bool(f.get("no_output"))}
-            if how == "val":
-                self.defaults.append(obj)
-                if (is_func or d.get("plain")) and not f.get("no_output"):
-                    return obj, True          # `name: T = obj` — a plain Python default
-                return F(default=obj, **kw), True
-            if how == "shared":               # a factory that hands out the same object every time
-                self.defaults.append(obj)
-                return F(default_factory=lambda o=obj: o, **kw), True
-            if how == "fresh":                # a factory that builds a new object every time
-                spec = d["val"]
-                return F(default_factory=lambda s=spec: build(s, {}), **kw), True
-            raise ValueError(how)
-
+        self.classes = [None] * len(env)
+        self.defaults = []          # declared default objects, in declaration order
+        self.hold = []
+        self.tags = {}
+        self.names = [f"K{self.uid}_{k}" for k in range(len(env))]
         for k, decl in enumerate(env):
-            kind = decl["kind"]
-            if kind in ("schema", "dataclass"):
-                ann, attrs = {}, {}
-                for f in decl["fields"]:
-                    ann[f["name"]] = mk_type(f["ty"], k)
-                    dv, has = mk_default(f, False)
-                    if has:
-                        attrs[f["name"]] = dv
-                    elif f.get("no_output"):
-                        attrs[f["name"]] = Field(no_output=True)
-                attrs["__annotations__"] = ann
-                attrs["__module__"] = self.modname
-                attrs["__qualname__"] = names[k]
-                if decl.get("dfs") is not None:
-                    attrs["__options__"] = Options(data_first_search=decl["dfs"])
-                cls = type(names[k], (Schema if kind == "schema" else DataClass,), attrs)
-                setattr(self.mod, names[k], cls)
-                self.classes.append(cls)
-            elif kind == "func":
-                ns = self.mod.__dict__
-                ns["HOLD"] = self.hold
-                params = []
-                for i, f in enumerate(decl["fields"]):
-                    ns[f"T{k}_{i}"] = mk_type(f["ty"], k)
-                    dv, has = mk_default(f, True)
-                    if has:
-                        ns[f"D{k}_{i}"] = dv
-                        params.append(f"{f['name']}: T{k}_{i} = D{k}_{i}")
-                    else:
-                        params.append(f"{f['name']}: T{k}_{i}")
-                body = "{" + ", ".join(f"'{f['name']}': {f['name']}" for f in decl["fields"]) + "}"
-                fkind = decl.get("fkind", "sync")
-                ret = decl.get("ret") if fkind in ("sync", "async") else None
-                head = "async def" if fkind in ("async", "agen") else "def"
-                ann = ""
-                tail = ""
-                if ret:
-                    ns[f"TR{k}"] = mk_type(ret["ty"], k)
-                    ann = f" -> TR{k}"
-                    tail = f"    return {ret['field']}\n"
-                if fkind in ("gen", "agen"):
-                    tail = "    yield 1\n"
-                src = f"{head} raw{k}({', '.join(params)}){ann}:\n    HOLD.append({body})\n{tail}"
-                exec(src, ns)
-                raw = ns[f"raw{k}"]
-                ws = []
-                for j, od in enumerate(decl.get("wrappers") or [None]):
-                    if only_wrapper is not None and only_wrapper != (k, j):
-                        ws.append(None)
-                        continue
-                    kwo = {"eager": True} if decl.get("eager") else {}
-                    if od:
-                        kwo["options"] = Options(**od)
-                    ws.append(utype.parse(raw, **kwo))
-                self.classes.append(ws)
+            if only_decls is not None:
+                if k in only_decls:
+                    self.declare(k)       # a replay declares what the parse needs, late or not, and nothing else
+            elif not decl.get("late"):
+                self.declare(k)
+
+    def mk_type(self, ty, cur):
+        import collections
+        import typing
+        if ty == "any":
+            return typing.Any
+        if ty == "int":
+            return int
+        if "bare" in ty:
+            return {"list": list, "tuple": tuple, "set": set, "fset": frozenset, "dict": dict,
+                    "deque": collections.deque, "bytearray": bytearray}[ty["bare"]]
+        if "seq" in ty:
+            t = self.mk_type(ty["of"], cur)
+            k = ty["seq"]
+            return {"list": lambda: typing.List[t], "tuple": lambda: typing.Tuple[t, ...],
+                    "set": lambda: typing.Set[t], "fset": lambda: typing.FrozenSet[t],
+                    "deque": lambda: typing.Deque[t]}[k]()
+        if "map" in ty:
+            return typing.Dict[str, self.mk_type(ty["map"], cur)]
+        if "tup" in ty:
+            return typing.Tuple[tuple(self.mk_type(t, cur) for t in ty["tup"])]
+        if "opt" in ty:
+            return typing.Optional[self.mk_type(ty["opt"], cur)]
+        if "data" in ty:
+            j = ty["data"]
+            if cur is not None and j < cur and self.classes[j] is not None:
+                return self.classes[j]
+            return self.names[j]      # forward reference by name (self or later class): resolved lazily at first parse
+        raise ValueError(ty)
+
+    def mk_default(self, f, is_func):
+        import utype
+        from utype import Field, Lax
+        d = f.get("default")
+        F = utype.Param if is_func else Field
+        kw = {} if is_func else {"no_output": bool(f.get("no_output"))}
+        cons = f.get("cons") or {}
+        for name, bound in cons.items():
+            if bound is not None:
+                kw[name] = Lax(bound["lax"]) if isinstance(bound, dict) else bound
+        if d is None:
+            if cons or kw.get("no_output"):
+                return F(**kw), True
+            return None, False
+        obj = build(d["val"], self.tags)
+        how = d.get("how", "val")
+        if how == "val":
+            self.defaults.append(obj)
+            if (is_func or d.get("plain")) and not f.get("no_output") and not cons:
+                return obj, True          # `name: T = obj` — a plain Python default
+            return F(default=obj, **kw), True
+        if how == "shared":               # a factory that hands out the same object every time
+            self.defaults.append(obj)
+            return F(default_factory=lambda o=obj: o, **kw), True
+        if how == "fresh":                # a factory that builds a new object every time
+            spec = d["val"]
+            return F(default_factory=lambda s=spec: build(s, {}), **kw), True
+        raise ValueError(how)
+
+    def declare(self, k):
+        """declare declaration k now (class statement / decoration)"""
+        import utype
+        from utype import Schema, DataClass, Options
+        decl = self.case["env"][k]
+        names = self.names
+        kind = decl["kind"]
+        if kind in ("schema", "dataclass"):
+            ann, attrs = {}, {}
+            for f in decl["fields"]:
+                ann[f["name"]] = self.mk_type(f["ty"], k)
+                dv, has = self.mk_default(f, False)
+                if has:
+                    attrs[f["name"]] = dv
+            attrs["__annotations__"] = ann
+            attrs["__module__"] = self.modname
+            attrs["__qualname__"] = names[k]
+            okw = {}
+            if decl.get("dfs") is not None:
+                okw["data_first_search"] = decl["dfs"]
+            if decl.get("ci"):
+                okw["case_insensitive"] = True
+            if okw:
+                attrs["__options__"] = Options(**okw)
+            if decl.get("base") is not None:
+                bases = (self.classes[decl["base"]],)       # a subclass / variant of an earlier class
             else:
-                raise ValueError(kind)
+                bases = (Schema if kind == "schema" else DataClass,)
+            cls = type(names[k], bases, attrs)
+            setattr(self.mod, names[k], cls)
+            self.classes[k] = cls
+        elif kind == "func":
+            ns = self.mod.__dict__
+            ns["HOLD"] = self.hold
+            params = []
+            for i, f in enumerate(decl["fields"]):
+                ns[f"T{k}_{i}"] = self.mk_type(f["ty"], k)
+                dv, has = self.mk_default(f, True)
+                if has:
+                    ns[f"D{k}_{i}"] = dv
+                    params.append(f"{f['name']}: T{k}_{i} = D{k}_{i}")
+                else:
+                    params.append(f"{f['name']}: T{k}_{i}")
+            body = "{" + ", ".join(f"'{f['name']}': {f['name']}" for f in decl["fields"]) + "}"
+            fkind = decl.get("fkind", "sync")
+            ret = decl.get("ret") if fkind in ("sync", "async") else None
+            head = "async def" if fkind in ("async", "agen") else "def"
+            ann = ""
+            tail = ""
+            if ret:
+                ns[f"TR{k}"] = self.mk_type(ret["ty"], k)
+                ann = f" -> TR{k}"
+                tail = f"    return {ret['field']}\n"
+            if fkind in ("gen", "agen"):
+                tail = "    yield 1\n"
+            src = f"{head} raw{k}({', '.join(params)}){ann}:\n    HOLD.append({body})\n{tail}"
+            exec(src, ns)
+            raw = ns[f"raw{k}"]
+            ws = []
+            for j, od in enumerate(decl.get("wrappers") or [None]):
+                if self.only_wrapper is not None and self.only_wrapper != (k, j):
+                    ws.append(None)
+                    continue
+                kwo = {"eager": True} if decl.get("eager") else {}
+                if od:
+                    kwo["options"] = Options(**od)
+                ws.append(utype.parse(raw, **kwo))
+            self.classes[k] = ws
+        else:
+            raise ValueError(kind)
 
     def close(self):
         sys.modules.pop(self.modname, None)
@@ -349,6 +408,9 @@ class Program:
                 raise RuntimeError("body did not run exactly once")
             return self.hold[-1]
         cls = self.classes[k]
+        if op.get("ropt") is not None:     # running options for this one parse
+            from utype import Options
+            return cls.__from__(inp, Options(**op["ropt"]))
         if style == "poskw":           # input is the pair (positional dict, keyword arguments)
             return cls(inp[0], **inp[1])
         if style == "pos":
@@ -368,13 +430,14 @@ def classify_exc(e):
 def run_program(case, only_last=False, only_wrapper=None, only_op=None, post=None):
     """execute the history; returns outs, roots(objects), input_changed, program.
     `post`: dict filled with op index -> value view of the result right after the call."""
-    prog = Program(case, only_wrapper=only_wrapper)
-    roots, outs, changed = [], [], []
     ops = case["ops"]
     if only_last:
         ops = [ops[-1]]
     if only_op is not None:
         ops = [ops[only_op]]
+    only_decls = needed_decls(case, ops[0]["target"]) if (only_last or only_op is not None) else None
+    prog = Program(case, only_wrapper=only_wrapper, only_decls=only_decls)
+    roots, outs, changed = [], [], []
     try:
         for i, op in enumerate(ops):
             kind = op["op"]
@@ -394,6 +457,10 @@ def run_program(case, only_last=False, only_wrapper=None, only_op=None, post=Non
                     post[i] = [outs[-1], erase(observe([res])[0])]
                 roots.append(inp)
                 roots.append(res)
+            elif kind == "declare":
+                if prog.classes[op["decl"]] is None:
+                    prog.declare(op["decl"])
+                outs.append("ok")
             elif kind == "mutate":
                 try:
                     o = walk(roots[op["root"]], op["path"]) if roots[op["root"]] is not _NOROOT else None
@@ -601,8 +668,10 @@ def spec_check(case, io):
     # (d) declared defaults keep their declared value
     want = []
     tags = {}
-    for decl in case["env"]:
-        for f in decl["fields"]:
+    declared = [k for k, d in enumerate(case["env"]) if not d.get("late")] + \
+        [op["decl"] for op in case["ops"] if op["op"] == "declare"]
+    for k in declared:
+        for f in case["env"][k]["fields"]:
             d = f.get("default")
             if d and d.get("how", "val") in ("val", "shared"):
                 want.append(erase(observe([build(d["val"], tags)])[0]))
@@ -698,6 +767,16 @@ def g_value(rng, ty, depth=0, junk=0.05, mode="input"):
         return g_atom(rng, junk)
     if "bare" in ty:
         k = ty["bare"]
+        if k == "bytearray":
+            if r < 0.06 and mode == "input":
+                return rng.choice([node("list", [1]), "x", 5])
+            return node("bytearray", [rng.randrange(256) for _ in range(rng.randint(0, 4))])
+        if k == "deque":
+            if r < 0.2 and mode == "input":
+                return node(rng.choice(["list", "tuple"]), [g_free(rng, depth + 1) for _ in range(rng.randint(0, 3))])
+            if r < 0.27 and mode == "input":
+                return rng.choice([5, "x", None, node("dict", []), node("set", [1])])
+            return node("deque", [g_free(rng, depth + 1) for _ in range(rng.randint(0, 4))])
         if k == "dict":
             if r < 0.08 and mode == "input":
                 return rng.choice([node("list", []), node("tuple", []), 5, "x", None])
@@ -716,7 +795,7 @@ def g_value(rng, ty, depth=0, junk=0.05, mode="input"):
         return node(k, [g_free(rng, depth + 1) for _ in range(rng.randint(0, 3))])
     if "seq" in ty:
         k = ty["seq"]
-        n = rng.randint(0, 3)
+        n = rng.randint(0, 4)
         items = [g_value(rng, ty["of"], depth + 1, junk, mode) for _ in range(n)]
         if k in ("set", "fset") or (r < 0.2 and mode == "input"):
             k2 = k if r >= 0.2 or mode != "input" else rng.choice(SEQK)
@@ -779,9 +858,9 @@ def g_type(rng, depth, nclasses, cur):
     if r < 0.20:
         return "int"
     if r < 0.40:
-        return {"bare": rng.choice(["list", "list", "dict", "dict", "set", "tuple", "fset"])}
+        return {"bare": rng.choice(["list", "list", "dict", "dict", "set", "tuple", "fset", "deque", "deque", "bytearray"])}
     if r < 0.58:
-        return {"seq": rng.choice(["list", "list", "list", "tuple", "set", "fset"]), "of": g_type(rng, depth + 1, 0, cur)}
+        return {"seq": rng.choice(["list", "list", "list", "tuple", "set", "fset", "deque"]), "of": g_type(rng, depth + 1, 0, cur)}
     if r < 0.70:
         return {"map": g_type(rng, depth + 1, 0, cur)}
     if r < 0.78:
@@ -847,19 +926,65 @@ def expand_data(rng, v, env, depth=0):
     return v
 
 
+def fields_of(env, k):
+    """all fields of declaration k: those taken over from its base class, then its own"""
+    d = env[k]
+    return (fields_of(env, d["base"]) if d.get("base") is not None else []) + d["fields"]
+
+
+def swapcase_key(rng, name):
+    return name.swapcase() if name.swapcase() != name else name.upper()
+
+
 def g_input(rng, env, k, depth=0, p_provide=0.55, junk=0.06):
     keys, items = [], []
-    for f in env[k]["fields"]:
+    for f in fields_of(env, k):
         if rng.random() < p_provide or (f.get("default") is None and rng.random() < 0.85):
             keys.append(f["name"])
             items.append(expand_data(rng, g_value(rng, f["ty"], 0, junk), env, depth))
     if rng.random() < 0.05:
         keys.append("zzz")
         items.append(1)
+    if env[k]["kind"] != "func":
+        # another letter case of a key: accepted by a case-insensitive class for its own fields, unknown otherwise
+        p_case = 0.25 if (env[k].get("ci") or any(f["name"].lower() != f["name"] for f in fields_of(env, k))) else 0.03
+        keys = [swapcase_key(rng, x) if rng.random() < p_case else x for x in keys]
     order = sorted(range(len(keys)), key=lambda i: keys[i])
     if rng.random() < 0.3:
         rng.shuffle(order)
     return node("dict", [items[i] for i in order], [keys[i] for i in order])
+
+
+ROPTS = [
+    {"ignore_required": True, "data_first_search": False},
+    {"ignore_required": True, "data_first_search": True},
+    {"ignore_required": True, "collect_errors": True, "data_first_search": False},
+    {"no_default": True, "data_first_search": False},
+    {"no_default": True, "data_first_search": True},
+    {"force_default": 0, "data_first_search": False},
+    {"force_default": 7, "data_first_search": True},
+    {"collect_errors": True},
+    {"mode": "r"}, {"mode": "w"}, {"mode": "a"},
+    {"data_first_search": True}, {"data_first_search": False},
+]
+CAP_NAMES = ["aB", "b", "Cc", "D"]
+
+
+def g_cons(rng, ty):
+    """length constraints (strict or Lax) for a container-typed field"""
+    if not isinstance(ty, dict) or not ("bare" in ty or "seq" in ty or "map" in ty or "tup" in ty):
+        return None
+    lax = lambda n: {"lax": n} if rng.random() < 0.6 else n
+    n = rng.randint(1, 3)
+    r = rng.random()
+    if r < 0.45:
+        return {"max_length": lax(n)}
+    if r < 0.65:
+        return {"length": lax(n)}
+    if r < 0.8:
+        return {"min_length": rng.randint(1, 2)}
+    lo = rng.randint(1, 2)
+    return {"min_length": lo, "max_length": lax(lo + rng.randint(0, 2))}
 
 
 def g_case(rng, maxops=7, p_fresh=0.03):
@@ -869,6 +994,7 @@ def g_case(rng, maxops=7, p_fresh=0.03):
     main_kind = rng.choice(["schema", "schema", "schema", "dataclass", "func", "func"])
     for k in range(nenv):
         kind = main_kind if k == nenv - 1 else rng.choice(["schema", "schema", "dataclass"])
+        names_k = CAP_NAMES if (kind != "func" and rng.random() < 0.3) else NAMES
         nf = rng.randint(1, 4)
         fields = []
         for i in range(nf):
@@ -880,7 +1006,11 @@ def g_case(rng, maxops=7, p_fresh=0.03):
                 ty = {"opt": ty}
             if isinstance(ty, dict) and "data" in json.dumps(ty) and env and False:
                 pass
-            f = {"name": NAMES[i], "ty": ty, "default": g_default(rng, ty, tagc)}
+            f = {"name": names_k[i], "ty": ty, "default": g_default(rng, ty, tagc)}
+            if rng.random() < 0.3:
+                c = g_cons(rng, ty)
+                if c:
+                    f["cons"] = c
             if _refs_class(ty, lambda j: j >= k) and f["default"] is None:
                 f["default"] = {"how": "val", "val": None, "plain": True}
             if kind != "func" and rng.random() < 0.15:
@@ -888,10 +1018,12 @@ def g_case(rng, maxops=7, p_fresh=0.03):
             fields.append(f)
         if kind == "func":
             # Python: parameters without default cannot follow parameters with default
-            fields.sort(key=lambda f: f["default"] is not None)
+            fields.sort(key=lambda f: f["default"] is not None or bool(f.get("cons")))
             for i, f in enumerate(fields):
                 f["name"] = NAMES[i]
         decl = {"kind": kind, "dfs": rng.choice([None, None, True, False]), "fields": fields}
+        if kind != "func" and rng.random() < 0.2:
+            decl["ci"] = True
         if kind == "func":
             decl["dfs"] = None
             decl["fkind"] = rng.choice(["sync", "sync", "async", "async", "gen", "agen"])
@@ -910,16 +1042,40 @@ def g_case(rng, maxops=7, p_fresh=0.03):
         for d in env:
             for f in d["fields"]:
                 f["ty"] = _drop_ref(f["ty"], nenv - 1)
+    # a declaration made in the middle of the history: a subclass of the main class with other Options (case
+    # insensitivity, search strategy) and possibly more fields, or an unrelated new class
+    late_at = None
+    nops = rng.randint(2, maxops)
+    if main_kind != "func" and rng.random() < 0.3 and nops >= 3:
+        base = nenv - 1 if rng.random() < 0.8 else None
+        own = []
+        for nm in rng.sample(["e", "Ff", "g"], rng.randint(0, 2)):
+            ty = fix_set_of(g_type(rng, 1, 0, nenv))
+            own.append({"name": nm, "ty": ty, "default": g_default(rng, ty, tagc) or {"how": "val", "val": 0, "plain": True}})
+        if base is None and not own:
+            own.append({"name": "e", "ty": "int", "default": None})
+        env.append({"kind": env[nenv - 1]["kind"] if base is not None else rng.choice(["schema", "dataclass"]),
+                    "late": True, "base": base,
+                    # (a case-sensitive subclass of a case-insensitive base is left out: the inherited aliases stay lower-cased)
+                    "ci": True if (base is not None and env[base].get("ci")) else rng.random() < 0.6,
+                    "dfs": rng.choice([None, True, False]), "fields": own})
+        late_at = rng.randint(1, nops - 2)
     ops = []
     nroots = 0
     results = []      # (root index, class k, input descriptor)
     input_roots = []
-    nops = rng.randint(2, maxops)
+    declared_late = False
     for i in range(nops):
         last = i == nops - 1
         r = rng.random()
+        if late_at is not None and i == late_at:
+            ops.append({"op": "declare", "decl": nenv})
+            declared_late = True
+            continue
         if last or r < 0.55 or not results:
             k = nenv - 1 if rng.random() < 0.8 else rng.randrange(nenv)
+            if declared_late and rng.random() < 0.35:
+                k = nenv
             if env[k]["kind"] == "func" and k != nenv - 1:
                 k = nenv - 1
             isf = env[k]["kind"] == "func"
@@ -928,10 +1084,11 @@ def g_case(rng, maxops=7, p_fresh=0.03):
             if not last and results and rng.random() < 0.12:
                 # pass an earlier root (or a part of it) back in
                 src = rng.choice(results)
-                f = rng.choice(env[k]["fields"])
+                f = rng.choice(fields_of(env, k))
                 ref = {"root": src[0], "path": src_path(rng, env, src)}
-                if f["name"] in inp["keys"]:
-                    inp["items"][inp["keys"].index(f["name"])] = ref
+                low = [x.lower() for x in inp["keys"]]
+                if f["name"].lower() in low:
+                    inp["items"][low.index(f["name"].lower())] = ref
                 else:
                     inp["keys"].append(f["name"])
                     inp["items"].append(ref)
@@ -939,6 +1096,10 @@ def g_case(rng, maxops=7, p_fresh=0.03):
                 inp = dict(rng.choice(input_roots))      # the very same input dict again
                 shape = inp
             op = {"op": "call", "target": k, "style": rng.choice(["kw", "kw", "pos", "from", "poskw", "poskw"]), "input": inp}
+            if not isf and rng.random() < 0.22:
+                # running options for this one parse: `Cls.__from__(data, Options(...))`
+                op["style"] = "from"
+                op["ropt"] = dict(rng.choice(ROPTS))
             if isf:
                 op["style"] = "kw"
                 op["wrapper"] = rng.randrange(len(env[k]["wrappers"]))
@@ -974,7 +1135,7 @@ def g_case(rng, maxops=7, p_fresh=0.03):
                         "key": rng.choice(["zz", "k"])})
         elif r < 0.93:
             src = rng.choice(results)
-            fs = [f for f in env[src[1]]["fields"] if f["ty"] in ("int", "any")]
+            fs = [f for f in fields_of(env, src[1]) if f["ty"] in ("int", "any") and not f.get("cons")]
             if fs and env[src[1]]["kind"] != "func":
                 ops.append({"op": "setattr", "root": src[0], "field": rng.choice(fs)["name"], "val": rng.choice([4, 6])})
             else:
@@ -1018,7 +1179,7 @@ def src_path(rng, env, src, deep=False, want_kind=False):
     """a plausible canonical path into a result: [field slot, then into the value the field is expected to hold]"""
     root, k, inp = src
     decl = env[k]
-    fields = decl["fields"]
+    fields = fields_of(env, k)
     if decl["kind"] == "func":
         names = sorted(f["name"] for f in fields)
         base = []
@@ -1099,7 +1260,9 @@ class C19(Check):
             "(thorough) operations: parses that succeed or fail (kw / positional dict / positional dict + keyword arguments / __from__ / positional args), in-place "
             "mutation of objects reached through results, setattr, Schema.copy(), earlier roots passed back in as inputs, "
             "ending in a probe parse that is replayed on freshly built declarations (every case) and in a fresh interpreter "
-            "(a sample).  non-trivial = at least one successful parse filled a mutable default or returned a container; "
+            "(a sample); container types incl. deque/bytearray with strict and Lax length constraints; running Options per parse "
+            "(ignore_required, no_default, force_default, mode, collect_errors, data_first_search); declarations made in the "
+            "middle of the history (case-insensitive subclasses, variants).  non-trivial = at least one successful parse filled a mutable default or returned a container; "
             "distinct by the whole program")
     assumptions = ["object identity beyond the alias model (interned small tuples / empty frozensets) is not compared: only "
                    "list/set/dict/instance/__dict__/bytearray/deque objects carry identity labels",
